@@ -3,6 +3,7 @@ package gen
 import (
 	"encoding/json"
 	"fmt"
+	"math"
 	"math/rand/v2"
 	"reflect"
 
@@ -316,6 +317,10 @@ func (g *stgen) scalarField(s *jsonschema.Schema, f reflect.StructField, fv refl
 					if g.o.Hostile && p(10) {
 						x = 0
 					}
+				}
+				if g.o.Hostile && p(12) {
+					// values no JSON text can hold; only a Schema built in Go carries them
+					x = Pick(r, []float64{math.Inf(1), math.Inf(-1), math.NaN(), math.MaxFloat64, -math.MaxFloat64, math.SmallestNonzeroFloat64, math.Copysign(0, -1)})
 				}
 				fv.Set(reflect.ValueOf(&x))
 			}
